@@ -28,4 +28,4 @@ more.register(globals(), {"C06", "C02", "C03", "C09"}, ["fan_catch_paths"])
 more.register(globals(), {"C06", "C02", "C03", "C09"}, ["gen_nested"], {"gen_nested": [("_par_ik%d_fail" % i, "rk == 0 and ik == %d and failing > 0" % i) for i in range(3)] + [("_map%d_ik%d_fail" % (m, i), "rk == 1 and rmc == %d and ik == %d and failing > 0" % (m, i)) for m in range(3) for i in range(3)]})
 
 import s2_found as found
-found.register(globals(), {"C06", "C02", "C03", "C09"}, ["caught_then_outer_fails"], {"caught_then_outer_fails": [("_a", "a_fails"), ("_noa", "not a_fails")]})
+found.register(globals(), {"C06", "C02", "C03", "C09"}, ["caught_then_outer_fails", "three_levels", "backstop_after_end"], {"caught_then_outer_fails": [("_a", "a_fails"), ("_noa", "not a_fails")]})
